@@ -15,6 +15,7 @@ from ..mir import deep_strip, tstr, strip_generics, canon, subterms, is_call, im
 from ..tables import c07_edges as T
 
 CONFIGS = ("FULL", "XEN")
+THOROUGH_CONFIGS = ("MIN",)
 TRUSTED = [
     "std/libc callees not on the may-panic list are total for the arguments they receive (listed in evidence as assumed-total)",
     "allocation failure, stack overflow and foreign GuestMemory/ReadVolatile implementations are out of scope",
@@ -315,9 +316,9 @@ def run(ctx, progs):
             for c in b.calls():
                 if not c.t.get("callee_local") and c.callee:
                     assumed_total.add(canon(c.target))
-        ctx.floor("A4.bodies", n_bodies, 300)
-        ctx.floor("A4.edges", n_edges, 90)
-        ctx.floor("A4.loops", n_loops, 11)
+        ctx.floor("A4.bodies", n_bodies, 300, MIN=200)
+        ctx.floor("A4.edges", n_edges, 90, MIN=40)
+        ctx.floor("A4.loops", n_loops, 11, MIN=9)
         ctx.extra.setdefault("panic_edges", {})[cfg] = {"bodies": n_bodies, "edges": n_edges, "auto": n_auto, "tabled": n_tab}
     ctx.extra["assumed_total_callees"] = len(assumed_total)
     ctx.extra["assumed_total_sample"] = sorted(assumed_total)[:40]
